@@ -240,6 +240,12 @@ class Origins:
         pl = op_place(op)
         if pl is not None:
             return self._place_labels(pl)
+        if "promoted" in op:
+            out = set()
+            for c in op["promoted"]:
+                out |= self.of_operand(c)
+            out.add(("const", "promoted", op.get("const", "")))
+            return out
         if "int" in op:
             return {("const", "int", op["int"])}
         if "str" in op:
